@@ -231,7 +231,7 @@ func H_C11_tv_one() {
 
 // H_C11_tv_two: development aid (not registered): the samples with defer / closures.
 func H_C11_tv_two() {
-	names := []string{"conv", "bits", "callDiv"}
+	names := []string{"conv", "bits", "callDiv", "shadow"}
 	want := names[symx.Choose(len(names))]
 	for _, s := range tvSamples {
 		if s.Name == want {
